@@ -39,9 +39,8 @@ func refUnions(l *prog.Loaded) map[*types.Named][]*types.Named {
 				if _, isItf := m.Underlying().(*types.Interface); isItf {
 					continue
 				}
-				if m.TypeParams().Len() > 0 {
-					continue
-				}
+				// (a generic declaration is a named type with a method set like any other: the
+				// statement does not leave it out, and neither does the analysis)
 				mset := types.NewMethodSet(m)
 				all := true
 				for i := 0; i < itf.NumMethods(); i++ {
